@@ -259,3 +259,226 @@ def rule_isa_base(ctx, R):
     if n < 300:
         raise AnalysisBroken('X86-ISA-BASE: only %d instructions classified' % n)
     R.ok('%d instructions classified' % n, 'src/jit_compiler_x86_static.S')
+
+
+# ---------------------------------------------------------------------------------------------------------------------------
+# [X86-DSREAD-HSEM] the dataset read of a compiled x86-64 program, executed on terms
+def _ds_machine():
+    from rules import x86hsem as X
+    from rules import rvhsem as V
+    from rules.a64hsem import const, add, atom
+
+    class M(X.MemMachine):
+        def __init__(self):
+            X.MemMachine.__init__(self)
+            self.prefetch = []
+
+        def addr(self, text):
+            return X.MemMachine.addr(self, re.sub(r'^(BYTE|WORD|XMMWORD) PTR ', 'QWORD PTR ', text.strip()))
+
+        def step(self, mn, ops):
+            ops = re.sub(r'\s*#.*$', '', ops)
+            o = [x.strip() for x in ops.split(',')] if ops else []
+            if mn.startswith('prefetch') and len(o) == 1:
+                a = self.addr(o[0])
+                if a is None:
+                    return False
+                self.prefetch.append(a)
+                return True
+            if mn == 'shr' and len(o) == 2 and o[0] in X.REG32 and re.match(r'^0x[0-9a-f]+$|^\d+$', o[1]):
+                self.r[X.REG32[o[0]]] = V.srl(X.and_(self.get(X.REG32[o[0]]), const(0xffffffff)), int(o[1], 0) % 32)
+                return True
+            if mn == 'add' and len(o) == 2 and o[0] in X.REG32 and re.match(r'^0x[0-9a-f]+$|^\d+$', o[1]):
+                self.r[X.REG32[o[0]]] = X.and_(add(self.get(X.REG32[o[0]]), const(int(o[1], 0) & 0xffffffff)), const(0xffffffff))
+                return True
+            if mn == 'xor' and len(o) == 2 and o[0] in X.REG32 and o[1] in X.REG32:
+                from rules.a64hsem import xor
+                self.r[X.REG32[o[0]]] = X.and_(xor(self.get(X.REG32[o[0]]), self.get(X.REG32[o[1]])), const(0xffffffff))
+                return True
+            if mn == 'mov' and len(o) == 2 and o[0] in X.REG64 and o[1].startswith('QWORD PTR'):
+                a = self.addr(o[1])
+                if a is None:
+                    return False
+                self.r[X.REG64[o[0]]] = X.ld64(a)
+                return True
+            return X.MemMachine.step(self, mn, ops)
+    return M
+
+
+def _readreg_prefix(ctx, rule, fn='generateProgramPrologue', names=('readReg2', 'readReg3')):
+    """the statements at the end of the prologue generator that compute readReg2 ^ readReg3: returns a function (ra, rb) -> decoded instructions"""
+    import astq
+    from astq import show, strip_all
+    from domains import KB, KBEval
+    from rules import jit
+    from rules import x86hsem as X
+    F, hs = jit.handlers(ctx, 'x86')
+    cls = 'randomx::JitCompilerX86'
+    g = F.func(cls + '::' + fn)
+    body = g['body']['s'] if g['body']['k'] == 'Compound' else [g['body']]
+
+    def is_emit(s):
+        t = strip_all(s)
+        return t['k'] == 'Call' and t.get('name') in ('emit', 'emitByte', 'emit32')
+    idx = {}
+    for i, s in enumerate(body):
+        t = strip_all(s)
+        if t['k'] == 'Call' and t.get('name') == 'emitByte':
+            txt = show(t['a'][0])
+            for nm in names:
+                if nm in txt:
+                    idx.setdefault(nm, i)
+    if set(idx) != set(names) or not idx[names[0]] < idx[names[1]]:
+        raise AnalysisBroken('%s: the statements that emit the %s / %s operand bytes were not found at the top level of %s' % (rule, names[0], names[1], fn))
+    lo = idx[names[0]]
+    while lo > 0 and is_emit(body[lo - 1]):
+        lo -= 1
+    run = body[lo:idx[names[1]] + 1]
+    if not all(is_emit(s) for s in run):
+        raise AnalysisBroken('%s: statements other than emit calls between the %s and %s operand bytes in %s' % (rule, names[0], names[1], fn))
+    p = [q for q in g['params'] if 'ProgramConfiguration' in (q.get('ty') or '')]
+    if len(p) != 1:
+        raise AnalysisBroken('%s: %s has no ProgramConfiguration parameter' % (rule, fn))
+    pn = p[0]['name']
+
+    def emit(ra, rb):
+        ex = X.X86Exec(F, cls, {}, {})
+        ev = KBEval(F, {'%s.%s' % (pn, names[0]): KB.const(32, ra), '%s.%s' % (pn, names[1]): KB.const(32, rb)}, 0, {})
+        for s in run:
+            ex._stmt(g, s, ev, 0)
+        return tuple(ex.bytes)
+    return g, emit
+
+
+def _frag(o, rule, name):
+    order = sorted((a, n) for n, a in o.symbols.items() if n.startswith('randomx_') or n.startswith('_randomx_'))
+    a = o.sym(name)
+    nxt = [x for x, n in order if x > a]
+    if not nxt:
+        raise AnalysisBroken('%s: no symbol after %s' % (rule, name))
+    return o.between(a, nxt[0])
+
+
+def rule_dsread(ctx, R):
+    import astq
+    from rules import x86hsem as X
+    from rules import rvhsem as V
+    from rules import a64hsem as T
+    from rules import bitlin
+    from rules.a64hsem import const, add, atom, xor, ror
+    if X.STRICT_FAMILY:
+        R.note('rule_dsread (x86) skipped: RXVERIF_STRICT_FAMILY=1 (evaluation on terms switched off, see DESIGN.md 9.2)')
+        return
+    R.rule('X86-DSREAD-HSEM', 'the dataset read at the end of every iteration of a compiled x86-64 program - the bytes the prologue generator emits for readReg2 ^ readReg3 followed by the hand-written v1 or v2 piece '
+           '(full-memory mode), or by the light-mode piece up to the call of the SuperscalarHash code and the piece after it - executed on a register file of terms performs specification 4.6.2 steps 5-8 with this '
+           'back-end\'s packing (rbp = mx:ma, ma in the low half): read at base + (old ma & CacheLineAlignMask) XORed word by word into r0..r7, mx (v1) or ma (v2) XORed with the zero-extended 32-bit value, halves swapped '
+           '(the prefetch address is only noted: it is a hint); light mode: item number = (old ma & mask) / 64 + datasetOffset / 64, r0..r7 saved and XORed back into the computed item', min_instances=40)
+    FI = astq.Facts(ctx, 'K0')
+    mask = FI.const('randomx::CacheLineAlignMask')
+    M32 = 0xffffffff
+    g, emit = _readreg_prefix(ctx, 'X86-DSREAD-HSEM')
+    R.saw(fn=g['q'])
+    o = ctx.obj('x86')
+    R.saw(unit='src/jit_compiler_x86_static.S', config='K0')
+    Mc = _ds_machine()
+    pairs = ((0, 1), (2, 7), (5, 5))
+    pre = {p: emit(*p) for p in pairs}
+    dec = X.disassemble(list(pre.values()))
+    undecided, nviol = [], 0
+
+    def compare(inst, got, want, where, tr, obs=bitlin.ALL):
+        nonlocal nviol
+        verdict, how = bitlin.decide(got, want, obs)
+        if verdict == 'eq':
+            R.ok(inst, where)
+        elif verdict == 'unknown':
+            undecided.append('%s is %s, the specification says %s; the two terms agree on every test valuation, equivalence undecided' % (inst, T.term_show(got, None), T.term_show(want, None)))
+        else:
+            nviol += 1
+            R.violation(inst, where, expected=T.term_show(want, None), found='%s after `%s`; %s' % (T.term_show(got, None), ' ; '.join(tr), how))
+
+    def run(m, seq, tr, where):
+        for mn, ops in seq:
+            if not m.step(mn, ops):
+                raise AnalysisBroken('X86-DSREAD-HSEM: instruction `%s %s` in %s has no meaning in the term machine' % (mn, ops, where))
+            tr.append('%s %s' % (mn, ops))
+
+    obs_mp = mask | (mask << 32)
+    for ver, sym in (('v1', 'randomx_program_read_dataset'), ('v2', 'randomx_program_read_dataset_v2')):
+        where = 'src/jit_compiler_x86_static.S:%s' % sym
+        piece = [(i[1], i[2]) for i in _frag(o, 'X86-DSREAD-HSEM', sym)]
+        for (ra, rb) in pairs:
+            m = Mc()
+            tr = []
+            run(m, [(d[0], d[1]) for d in dec[pre[(ra, rb)]]], tr, g['q'])
+            run(m, piece, tr, where)
+            t = X.and_(xor(atom(('reg', ra)), atom(('reg', rb))), const(M32))
+            mp0, base0 = atom(('undef', 5)), atom(('undef', 7))
+            if ver == 'v1':
+                new = xor(ror(mp0, const(32)), t)
+                pf = add(X.and_(new, const(mask)), base0)
+            else:
+                new = ror(xor(mp0, t), const(32))
+                pf = add(X.and_(xor(mp0, t), const(mask)), base0)
+            rd = add(X.and_(mp0, const(mask)), base0)
+            tag = '%s readReg r%d,r%d ' % (ver, ra, rb)
+            compare(tag + 'mx:ma (rbp)', m.get(5), new, where, tr, obs_mp)
+            compare(tag + 'dataset base (rdi)', m.get(7), base0, where, tr)
+            compare(tag + 'scratchpad base (rsi)', m.get(6), atom(('spad',)), where, tr)
+            for k in range(8):
+                compare(tag + 'r%d' % k, m.get(8 + k), xor(atom(('reg', k)), X.ld64(add(rd, const(8 * k)))), where, tr)
+            # the prefetch is a hint: another address (or none) costs time and changes no result, so it is reported as a note only
+            if len(m.prefetch) != 1 or bitlin.decide(m.prefetch[0], pf)[0] != 'eq':
+                R.note('X86-DSREAD-HSEM: %sthe prefetch does not address base + (new mx & mask) (%s) - a performance matter, not a result' % (tag, ', '.join(T.term_show(x, None) for x in m.prefetch) or 'no prefetch'))
+            if m.stores:
+                nviol += 1
+                R.violation(tag + 'stores', where, expected='no store', found='%d stores' % len(m.stores))
+    # light mode: init piece, `add ebx, datasetOffset / 64`, call, fin piece
+    gl = None
+    for ver, s_init in (('v1', 'randomx_program_read_dataset_sshash_init'), ('v2', 'randomx_program_read_dataset_sshash_init_v2')):
+        where = 'src/jit_compiler_x86_static.S:%s' % s_init
+        init = [(i[1], i[2]) for i in _frag(o, 'X86-DSREAD-HSEM', s_init)]
+        fin = [(i[1], i[2]) for i in _frag(o, 'X86-DSREAD-HSEM', 'randomx_program_read_dataset_sshash_fin')]
+        (ra, rb) = (2, 7)
+        m = Mc()
+        tr = []
+        run(m, [(d[0], d[1]) for d in dec[pre[(ra, rb)]]], tr, g['q'])
+        run(m, init, tr, where)
+        t = X.and_(xor(atom(('reg', ra)), atom(('reg', rb))), const(M32))
+        mp0, sp0 = atom(('undef', 5)), atom(('undef', 4))
+        new = xor(ror(mp0, const(32)), t) if ver == 'v1' else ror(xor(mp0, t), const(32))
+        tag = 'light %s ' % ver
+        compare(tag + 'mx:ma (rbp)', m.get(5), new, where, tr, obs_mp)
+        compare(tag + 'item number before the offset (ebx)', m.get(3), V.srl(X.and_(mp0, const(mask)), 6), where, tr)
+        saved = {}
+        for a, v in m.stores:
+            saved[a] = v
+        # after the call: r8..r15 hold the item, everything the SuperscalarHash code may change is unknown except rsp / rbp / rsi / rdi (A64-/X86-DSITEM's obligation: registers of the item code)
+        slots = {}
+        for k in range(8):
+            hit = [a for a, v in saved.items() if v == atom(('reg', k))]
+            if len(hit) != 1:
+                nviol += 1
+                R.violation(tag + 'r%d saved once' % k, where, expected='one stack slot holds r%d across the call' % k, found='%d slots' % len(hit))
+                continue
+            slots[k] = hit[0]
+        hb = [a for a, v in saved.items() if v == atom(('undef', 3))]
+        if len(slots) < 8:
+            continue
+        m2 = Mc()
+        for k in range(8):
+            m2.r[8 + k] = atom(('item', k))
+        tr2 = []
+        run(m2, fin, tr2, 'randomx_program_read_dataset_sshash_fin')
+        for k in range(8):
+            want = xor(atom(('item', k)), X.ld64(slots[k]))
+            compare(tag + 'r%d after the call' % k, m2.get(8 + k), want, 'src/jit_compiler_x86_static.S:randomx_program_read_dataset_sshash_fin', tr2)
+        if len(hb) == 1:
+            compare(tag + 'rbx restored', m2.get(3), X.ld64(hb[0]), 'src/jit_compiler_x86_static.S:randomx_program_read_dataset_sshash_fin', tr2)
+        else:
+            nviol += 1
+            R.violation(tag + 'rbx saved once', where, expected='one stack slot holds the caller\'s rbx across the call', found='%d slots' % len(hb))
+    if undecided and not nviol:
+        raise AnalysisBroken('X86-DSREAD-HSEM: ' + undecided[0])
+    for u in undecided:
+        R.note('X86-DSREAD-HSEM: ' + u)
